@@ -212,6 +212,48 @@ func (c *Ctx) trackerCallsNamed(fn *ssa.Function, name string) []ssa.CallInstruc
 	return out
 }
 
+// deepCall is a tracker call made by a handler directly or through one level
+// of unexported *Conn helper; Args are resolved into the handler's values
+// and Anchor is the instruction in the handler whose guards decide it.
+type deepCall struct {
+	Site   ssa.CallInstruction
+	Args   []ssa.Value
+	Anchor ssa.Instruction
+	Inner  []Cond // conditions inside the helper guarding the call
+}
+
+func (c *Ctx) deepTrackerCalls(h *ssa.Function, name string) []deepCall {
+	var out []deepCall
+	for _, cs := range c.trackerCallsNamed(h, name) {
+		out = append(out, deepCall{Site: cs, Args: cs.Common().Args, Anchor: cs})
+	}
+	for _, hs := range CallSites(h) {
+		cal := hs.Common().StaticCallee()
+		if cal == nil || hs.Common().IsInvoke() || cal.Package() != c.Client || (cal.Object() != nil && cal.Object().Exported()) {
+			continue
+		}
+		if _, isGo := hs.(*ssa.Go); isGo {
+			continue
+		}
+		for _, cs := range c.trackerCallsNamed(cal, name) {
+			var args []ssa.Value
+			for _, a := range cs.Common().Args {
+				res := a
+				if pr, ok := a.(*ssa.Parameter); ok {
+					for i, q := range cal.Params {
+						if q == pr && i < len(hs.Common().Args) {
+							res = hs.Common().Args[i]
+						}
+					}
+				}
+				args = append(args, res)
+			}
+			out = append(out, deepCall{Site: cs, Args: args, Anchor: hs, Inner: CondsAt(cs.Block())})
+		}
+	}
+	return out
+}
+
 func runC17(c *Ctx) {
 	r, a := c.R, c.A
 	r.Rule("R1", "every store to Config.Me stores a non-nil value: a fresh allocation, the result of a function none of whose module implementations returns nil, or a value guarded by a dominating != nil; Me() returns that field")
@@ -252,17 +294,20 @@ func runC17(c *Ctx) {
 			call, ok := v.(*ssa.Call)
 			return ok && call.Call.StaticCallee() != nil && call.Call.StaticCallee().Name() == "Target" && call.Call.Args[0] == line
 		}
-		rn := c.trackerCallsNamed(h, "ReNick")
+		rn := c.deepTrackerCalls(h, "ReNick")
 		r.Exactly("R2", "ReNick calls in the 001 handler", len(rn), 1)
-		for _, cs := range rn {
-			ok, why := isTarget(cs.Common().Args[1]), "new nick is line.Target()"
+		for _, dc := range rn {
+			ok, why := isTarget(dc.Args[1]), "new nick is line.Target()"
 			if !ok {
 				why = "second argument is not line.Target()"
 			}
 			if ok {
-				ok, why = c.onlyKinds(cs, line, "tracking")
+				ok, why = c.onlyKinds(dc.Anchor, line, "tracking")
 			}
-			r.Add("R2", "001:tracked", c.InstrPos(cs), c.FuncKey(h), "tracked client adopts the welcome's nick", ok, why)
+			if ok && len(dc.Inner) > 0 {
+				ok, why = false, "the helper performs the rename only under a further condition"
+			}
+			r.Add("R2", "001:tracked", c.InstrPos(dc.Site), c.FuncKey(h), "tracked client adopts the welcome's nick", ok, why)
 		}
 		st := c.storesToMyNick(h)
 		r.Exactly("R2", "stores to Config.Me.Nick in the 001 handler", len(st), 1)
@@ -308,14 +353,17 @@ func runC17(c *Ctx) {
 		}
 		r.Add("R2", "433:answer", c.Pos(h.Pos()), c.FuncKey(h), "a collision is always answered by NICK <generated nick>", okAll, "Nick(neu) on every path")
 		n433 := 0
-		for _, cs := range c.trackerCallsNamed(h, "ReNick") {
+		for _, dc := range c.deepTrackerCalls(h, "ReNick") {
 			n433++
-			ok := gen != nil && cs.Common().Args[1] == ssa.Value(gen) && c.hasKind(cs, line, "is-my-nick")
+			ok := gen != nil && dc.Args[1] == ssa.Value(gen) && c.hasKind(dc.Anchor, line, "is-my-nick")
 			why := "adopts the generated nick under Args[1] == current nick"
 			if ok {
-				ok, why = c.onlyKinds(cs, line, "tracking", "is-my-nick", "argslen")
+				ok, why = c.onlyKinds(dc.Anchor, line, "tracking", "is-my-nick", "argslen")
 			}
-			r.Add("R2", "433:tracked", c.InstrPos(cs), c.FuncKey(h), "tracked client adopts the new nick only when the refused nick was the current one", ok, why)
+			if ok && len(dc.Inner) > 0 {
+				ok, why = false, "the helper performs the rename only under a further condition"
+			}
+			r.Add("R2", "433:tracked", c.InstrPos(dc.Site), c.FuncKey(h), "tracked client adopts the new nick only when the refused nick was the current one", ok, why)
 		}
 		for _, s := range c.storesToMyNick(h) {
 			n433++
@@ -916,7 +964,10 @@ func runC19(c *Ctx) {
 						cd = unwrapNot(cd)
 						if bo, isB := cd.V.(*ssa.BinOp); isB {
 							if sc, isS := bo.X.(*ssa.Call); isS && sc.Call.StaticCallee() != nil && sc.Call.StaticCallee().Name() == "Size" && sc.Call.Args[0] == set {
-								if (bo.Op == token.GTR && isZero(bo.Y) && cd.True) || (bo.Op == token.NEQ && isZero(bo.Y) && cd.True) {
+								one := func(v ssa.Value) bool { k, ok := constInt(v); return ok && k == 1 }
+								if (bo.Op == token.GTR && isZero(bo.Y) && cd.True) || (bo.Op == token.NEQ && isZero(bo.Y) && cd.True) ||
+									(bo.Op == token.EQL && isZero(bo.Y) && !cd.True) || (bo.Op == token.LEQ && isZero(bo.Y) && !cd.True) ||
+									(bo.Op == token.GEQ && one(bo.Y) && cd.True) || (bo.Op == token.LSS && one(bo.Y) && !cd.True) {
 									sizeOK = true
 									// the other edge sends END
 									endOK := false
@@ -988,35 +1039,72 @@ func runC19(c *Ctx) {
 			r.Anchor("R2", "handler for "+num, false)
 		}
 	}
-	// NAK / ACK handlers: reached from the CAP handler's switch on the subcommand
+	// NAK / ACK handling: reached from the CAP handler's switch on the subcommand
 	hcap := a.IntTable["CAP"]
 	var ackFn, nakFn *ssa.Function
+	nakInline, nakSeen := false, false
+	isEndCall := func(in ssa.Instruction) bool {
+		cc := callOf(in)
+		if cc == nil || cc.IsInvoke() {
+			return false
+		}
+		if cc.StaticCallee() == capFn {
+			s, _ := constString(cc.Args[1])
+			return s == "END"
+		}
+		if cal := cc.StaticCallee(); cal != nil && cal.Package() == c.Client && cal != capFn {
+			ok, _ := ends(cal)
+			return ok
+		}
+		return false
+	}
 	if hcap != nil {
-		for _, cs := range CallSites(hcap) {
-			cal := cs.Common().StaticCallee()
-			if cal == nil || !c.InModuleFn(cal) {
-				continue
-			}
-			for _, cd := range CondsAt(cs.Block()) {
+		r.Funcs[c.FuncKey(hcap)] = true
+		for _, b := range hcap.Blocks {
+			sub := ""
+			for _, cd := range CondsAt(b) {
 				cd = unwrapNot(cd)
 				if bo, ok := cd.V.(*ssa.BinOp); ok && bo.Op == token.EQL && cd.True {
 					if s, ok := constString(bo.Y); ok {
-						switch s {
-						case "ACK":
-							ackFn = cal
-						case "NAK":
-							nakFn = cal
-						}
+						sub = s
+					}
+				}
+			}
+			if sub != "ACK" && sub != "NAK" {
+				continue
+			}
+			for _, in := range b.Instrs {
+				cs, ok := in.(*ssa.Call)
+				if !ok {
+					continue
+				}
+				cal := cs.Call.StaticCallee()
+				if cal == nil || !c.InModuleFn(cal) {
+					continue
+				}
+				switch sub {
+				case "ACK":
+					if cal != capFn {
+						ackFn = cal
+					}
+				case "NAK":
+					nakSeen = true
+					if cal == capFn {
+						nakInline = isEndCall(in)
+					} else {
+						nakFn = cal
 					}
 				}
 			}
 		}
 	}
-	r.Anchor("R2", "ACK and NAK handlers (dispatched from the CAP handler by subcommand)", ackFn != nil && nakFn != nil)
+	r.Anchor("R2", "ACK handler and NAK handling (dispatched from the CAP handler by subcommand)", ackFn != nil && nakSeen)
 	if nakFn != nil {
 		ok, why := ends(nakFn)
 		r.Add("R2", "ends:NAK", c.Pos(nakFn.Pos()), c.FuncKey(nakFn), "negotiation ends after a NAK", ok, why)
 		r.Funcs[c.FuncKey(nakFn)] = true
+	} else if nakSeen {
+		r.Add("R2", "ends:NAK", posFn(c, hcap), c.FuncKey(hcap), "negotiation ends after a NAK", nakInline, "Cap(END) called in the NAK case of the CAP handler")
 	}
 	if ackFn != nil {
 		r.Funcs[c.FuncKey(ackFn)] = true
@@ -1037,8 +1125,11 @@ func runC19(c *Ctx) {
 			isSasl, hasCfg := false, false
 			for _, cd := range CondsAt(cs.Block()) {
 				cd = unwrapNot(cd)
-				if bo, ok := cd.V.(*ssa.BinOp); ok && cd.True == (bo.Op == token.EQL || bo.Op == token.NEQ && false) {
-					if s, ok := constString(bo.Y); ok && s == "sasl" && bo.Op == token.EQL {
+				if bo, ok := cd.V.(*ssa.BinOp); ok && (bo.Op == token.EQL || bo.Op == token.NEQ) && (bo.Op == token.EQL) == cd.True {
+					if s, ok := constString(bo.Y); ok && s == "sasl" {
+						isSasl = true
+					}
+					if s, ok := constString(bo.X); ok && s == "sasl" {
 						isSasl = true
 					}
 				}
